@@ -3,6 +3,7 @@ package main
 // Symbolic interpreter for go/ssa (one path per Exec; exploration by re-execution).
 
 import (
+	"time"
 	"fmt"
 	"go/constant"
 	"go/token"
@@ -400,6 +401,9 @@ func (ex *Exec) runFrame(fr *frame) {
 		jumped := false
 		for _, instr := range fr.block.Instrs {
 			ex.steps++
+			if ex.steps&0xfffff == 0 && !ex.cfg.deadline.IsZero() && time.Now().After(ex.cfg.deadline) {
+				panic(pathAbort{"timebudget", "time budget of the configuration exhausted inside a path"})
+			}
 			if ex.steps > ex.cfg.MaxSteps {
 				ex.abort("budget", "step budget exceeded")
 			}
